@@ -195,7 +195,8 @@ func C11(r *drv.Run) {
 	if !quick(r) {
 		nrand = 300000
 	}
-	r.Rule = "exhaustive: every unary operator x 43 leaves and every binary operator x 43 x 43 leaves (string/number/bool literals at boundary values '', '0', '7', '12', 'abc', '+3', ' 4', '010', '0x1F', '1_000', '1e3', '3.5', an overflowing digit string, 0, 1, 2, -1, 7, 12, true, false, and variables bound by set and by a capture) that the documented table types; plus seeded random well-typed trees of depth <= 3, each rendered with minimal AND with full parentheses (precedence and associativity). Observation: a transform returning the expression (booleans through if/else) and a predicate returning it (match / no match). Oracle: evaluator transcribed from the documentation tables (harness/proc). Non-trivial = every expression whose observed value equalled the expected one is a distinct checked cell; distinct by expression text."
+	nl := len(c11Leaves())
+	r.Rule = fmt.Sprintf("exhaustive: every unary operator x %d leaves and every binary operator x %d x %d leaves", nl, nl, nl) + " (string/number/bool literals at boundary values '', '0', '7', '12', 'abc', '+3', ' 4', '010', '0x1F', '1_000', '1e3', '3.5', an overflowing digit string, the largest and smallest 64-bit integers as strings and as numbers, 0, 1, 2, -1, 7, 12, true, false, and variables bound by set and by a capture) that the documented table types; plus seeded random well-typed trees of depth <= 3, each rendered with minimal AND with full parentheses (precedence and associativity). Observation: a transform returning the expression (booleans through if/else) and a predicate returning it (match / no match). Oracle: evaluator transcribed from the documentation tables (harness/proc). Non-trivial = every expression whose observed value equalled the expected one is a distinct checked cell; distinct by expression text."
 	r.Assumptions = []string{
 		"division and modulo by zero are not generated (no documented result; see known finding K1 under C09)",
 		"left open by the documentation and always parenthesised explicitly: unary operators over binary operands, ==/!= mixed with </>/<=/>= in one chain",
